@@ -361,26 +361,33 @@ theorem liveGetTask_name {s : Sys} {n : String} {t : Task} (h : liveGetTask s n 
   · cases h
 
 /-- a task found for a ref (cache, else live GET) carries the ref's name -/
+theorem getTaskForRef_name {s : Sys} {ref : TaskRef} {t : Task}
+    (h : getTaskForRef s ref = some t) : t.name = ref.name := by
+  unfold getTaskForRef at h
+  split at h
+  · rename_i p hp
+    split at h
+    · cases h
+    · rename_i t' ht'
+      split at h
+      · cases h; rw [podTask_name ht', (findPod_some hp).2]
+      · exact liveGetTask_name h
+  · split at h
+    · cases h
+    · exact liveGetTask_name h
+
+theorem tasksForRefs_name {s : Sys} {refs : List TaskRef} {t : Task}
+    (h : t ∈ tasksForRefs s refs) : ∃ r ∈ refs, t.name = r.name := by
+  unfold tasksForRefs at h
+  obtain ⟨r, hr, hg⟩ := List.mem_filterMap.mp h
+  exact ⟨r, hr, getTaskForRef_name hg⟩
+
 theorem getTaskForRefConfirmed_name {s : Sys} {ref : TaskRef} {t : Task}
     (h : getTaskForRefConfirmed s ref = some t) : t.name = ref.name := by
-  have key : getTaskForRef s ref = some t → t.name = ref.name := by
-    intro h
-    unfold getTaskForRef at h
-    split at h
-    · rename_i p hp
-      split at h
-      · cases h
-      · rename_i t' ht'
-        split at h
-        · cases h; rw [podTask_name ht', (findPod_some hp).2]
-        · exact liveGetTask_name h
-    · split at h
-      · cases h
-      · exact liveGetTask_name h
   unfold getTaskForRefConfirmed at h
   split at h
   · rename_i t' ht'
-    cases h; exact key ht'
+    cases h; exact getTaskForRef_name ht'
   · exact liveGetTask_name h
 
 theorem tasksForRefsConfirmed_name {s : Sys} {refs : List TaskRef} {t : Task}
@@ -439,7 +446,7 @@ def armMin (s1 : Sys) (key : String) (minE : Option Time) : Sys :=
 theorem syncCreateTasks_eq (s : Sys) (jo : JobObj) (rj : Job) (tasks : List Task) :
     syncCreateTasks s jo rj tasks =
       if (!canCreateTask rj) = true then (s, some (rj, adoptUnrecordedTasks s jo tasks))
-      else if (refreshedSummary s rj tasks).complete = true then (s, some (rj, tasks))
+      else if (refreshedSummary s rj tasks).complete = true then (s, some (rj, adoptUnrecordedTasks s jo tasks))
       else
         match computeMissingIndexesForCreation s.d rj (rj.indexes s.d) with
         | none => (s, none)
@@ -494,7 +501,9 @@ theorem armMin_ext (s s1 : Sys) (l : List Call) (hext : Ext s s1 l) (key : Strin
     exact this.mono (dueAt_mono s hle)
 
 /-- `syncCreateTasks`: creation is attempted only when `canCreateTask` holds and the refreshed
-summary is not complete; then the calls are pod creates for requests of
+summary is not complete (in both other cases the state is untouched and the unrecorded tasks of
+the pod cache are adopted into the list — fix 5671da6 and the repair of F23); then the calls are
+pod creates for requests of
 `computeMissingIndexesForCreation` on the CACHED refs (`rj.status.tasks`) whose earliest time has
 come; requests with an earliest time arm a timer. -/
 theorem syncCreateTasks_ext (s : Sys) (jo : JobObj) (rj : Job) (tasks : List Task) :
@@ -502,7 +511,7 @@ theorem syncCreateTasks_ext (s : Sys) (jo : JobObj) (rj : Job) (tasks : List Tas
       (canCreateTask rj = false →
         syncCreateTasks s jo rj tasks = (s, some (rj, adoptUnrecordedTasks s jo tasks))) ∧
       (canCreateTask rj = true → (refreshedSummary s rj tasks).complete = true →
-        syncCreateTasks s jo rj tasks = (s, some (rj, tasks))) ∧
+        syncCreateTasks s jo rj tasks = (s, some (rj, adoptUnrecordedTasks s jo tasks))) ∧
       (∀ c ∈ l, c.verb = "create" ∧ c.res = "pods" ∧ c.force = false ∧ canCreateTask rj = true ∧
         (refreshedSummary s rj tasks).complete = false ∧
         ∃ reqs, computeMissingIndexesForCreation s.d rj (rj.indexes s.d) = some reqs ∧
